@@ -135,7 +135,11 @@ func (tl *TokenLimiter) reserveN(ctx context.Context, now time.Time, n int) bool
 		return false
 	}
 
-	if errors.Is(err, context.DeadlineExceeded) || errors.Is(err, context.Canceled) {
+	// 仅当调用者自己的上下文已结束时才算上下文错误：
+	// 连接 redis 超时（dial i/o timeout）同样满足 errors.Is(err, context.DeadlineExceeded)，
+	// 但那是 redis 不可达，应当走进程内替补。
+	if ctx.Err() != nil &&
+		(errors.Is(err, context.DeadlineExceeded) || errors.Is(err, context.Canceled)) {
 		logx.Errorf("无法使用速率限制器：%s", err)
 		return false
 	}
